@@ -2,6 +2,7 @@ package main
 
 import (
 	"bufio"
+	"crypto/tls"
 	"flag"
 	"fmt"
 	"math/rand"
@@ -39,8 +40,13 @@ func cmdRaceMix(args []string) {
 	if *pass {
 		es.SetRequirePass(tlsPassword)
 	}
+	// a TLS port as well: handshakes run while Stop/Start/Restart replace (or must not touch) what they read
+	p := newPKI()
+	tlsp := freePort()
+	es.SetTLSPort(tlsp)
+	es.ServerCert, es.ServerKey, es.CACerts = p.serverPEM, p.keyPEM, p.rootPEM
 	must(es.Start())
-	var cnt struct{ connects, cmds, cfgset, cfgget, polls, restarts, stops, authed atomic.Int64 }
+	var cnt struct{ connects, cmds, cfgset, cfgget, polls, restarts, stops, authed, tlsconns, patterns atomic.Int64 }
 	stop := make(chan struct{})
 	var wg sync.WaitGroup
 	var life sync.RWMutex // lifecycle calls are issued by one goroutine; clients do not care whether the server is up
@@ -56,10 +62,22 @@ func cmdRaceMix(args []string) {
 					return
 				default:
 				}
-				conn, err := net.DialTimeout("tcp", fmt.Sprintf("127.0.0.1:%d", port), 200*time.Millisecond)
+				overTLS := rng.Intn(4) == 0
+				conn, err := net.DialTimeout("tcp", fmt.Sprintf("127.0.0.1:%d", map[bool]int{false: port, true: tlsp}[overTLS]), 200*time.Millisecond)
 				if err != nil {
 					time.Sleep(time.Millisecond)
 					continue
+				}
+				if overTLS {
+					raw := conn
+					tc := tls.Client(raw, &tls.Config{RootCAs: p.rootPool, ServerName: "localhost", Certificates: p.clients["ok"], MinVersion: tls.VersionTLS12})
+					raw.SetDeadline(time.Now().Add(300 * time.Millisecond))
+					if tc.Handshake() != nil {
+						raw.Close()
+						continue
+					}
+					conn = tc
+					cnt.tlsconns.Add(1)
 				}
 				cnt.connects.Add(1)
 				rd := bufio.NewReader(conn)
@@ -118,7 +136,19 @@ func cmdRaceMix(args []string) {
 					case 10:
 						ok = do("PING")
 					case 11:
-						ok = do("KEYS", "*")
+						// many distinct patterns, each used again and again (more than any pattern cache holds)
+						pat := fmt.Sprintf("k%d*", rng.Intn(1500))
+						switch rng.Intn(4) {
+						case 0:
+							ok = do("KEYS", "*")
+						case 1:
+							ok = do("KEYS", pat)
+						case 2:
+							ok = do("SCAN", "0", "MATCH", pat)
+						default:
+							ok = do("CONFIG", "GET", "p"+pat)
+						}
+						cnt.patterns.Add(1)
 					}
 					if !ok {
 						break
@@ -181,7 +211,7 @@ func cmdRaceMix(args []string) {
 	wg.Wait()
 	es.Stop()
 	rec.Emit(Ev{"ev": "mix", "connects": cnt.connects.Load(), "cmds": cnt.cmds.Load(), "cfgset": cnt.cfgset.Load(), "cfgget": cnt.cfgget.Load(),
-		"polls": cnt.polls.Load(), "restarts": cnt.restarts.Load(), "stops": cnt.stops.Load(), "authed": cnt.authed.Load(), "clients": *clients, "requirepass": *pass})
+		"polls": cnt.polls.Load(), "restarts": cnt.restarts.Load(), "stops": cnt.stops.Load(), "authed": cnt.authed.Load(), "tlsconns": cnt.tlsconns.Load(), "patterns": cnt.patterns.Load(), "clients": *clients, "requirepass": *pass})
 	rec.End()
 	must(rec.Close())
 	fmt.Printf("racemix: %d connects, %d commands, %d restarts\n", cnt.connects.Load(), cnt.cmds.Load(), cnt.restarts.Load())
